@@ -563,6 +563,10 @@ def run(ctx: core.Ctx):
             flat.append((c, r))
     import onnx
 
+    # spec/Graph.tla is evaluated on every result in quick, on a seeded sample of GC_CAP results in thorough
+    GC_CAP = 12000
+    gc_pick = set(range(len(flat))) if len(flat) <= GC_CAP else set(rng.sample(range(len(flat)), GC_CAP))
+    ctx.set("graphcheck_results", len(gc_pick))
     for k, (c, r) in enumerate(flat):
         if r is core.HANG:
             ctx.add("evaluations")
@@ -571,7 +575,7 @@ def run(ctx: core.Ctx):
         if isinstance(r, core.MachineryErrorResult):
             raise core.MachineryError(f"worker failed: {r.msg} on {describe(c)}")
         if "after_bytes" in r:
-            if not r["prop"]:
+            if not r["prop"] and k in gc_pick:
                 items += core.abstract_model(f"c{k}", onnx.ModelProto.FromString(r["after_bytes"]))
             del r["after_bytes"]
     # spec/Graph.tla evaluated by TLC on the real results that passed so far
